@@ -4,7 +4,7 @@ cd "$(dirname "$0")/../coq" || exit 1
 {
   echo "-Q . Tevec"
   echo "-arg -w -arg -notation-overridden,-deprecated-hint-without-locality,-deprecated-instance-without-locality,-deprecated-hint-rewrite-without-locality"
-  find Base Spec Model Proofs Props Run -name '*.v' ! -name 'cases_*' | LC_ALL=C sort
+  find Base Spec Model Gen Proofs Props Run -name '*.v' ! -name 'cases_*' | LC_ALL=C sort
   [ -f Findings.v ] && echo Findings.v
 } > _CoqProject
 coq_makefile -f _CoqProject -o Makefile >/dev/null
